@@ -80,7 +80,7 @@ def check_batch(batch, checks, tag, timeout=900):
     mod = "G_%s_%s" % (tag, h)
     path = os.path.join(WORK, mod + ".v")
     with open(path, "w") as f:
-        f.write("From Coq Require Import List ZArith Bool.\nFrom Gocc Require Import LR.Parse LR.Validate LR.Complete%s.\n"
+        f.write("From Coq Require Import List ZArith Bool.\nFrom Gocc Require Import LR.Parse LR.Validate LR.Complete LR.Exact%s.\n"
                 "Import ListNotations.\n" % "")
         for name, r in batch:
             f.write(r if isinstance(r, str) else emit(r, name))
@@ -131,3 +131,4 @@ LR_CHECKS = [
     ("nes", "no_error_shift tb_{n}"),
     ("sf", "start_fresh g_{n}"),
 ]
+X_CHECK = ("xc", "x_checks g_{n} tb_{n} an_{n}")
